@@ -2,6 +2,8 @@ import Proofs.C17.PowCanon
 import Proofs.C17.Merkle
 import Proofs.C17.Golomb
 import Model.C17.Bip158
+import Proofs.C17.CompactBlocks
+import Proofs.C17.Block
 /-!
 # C17 — block commitments: merkle roots, proofs, filters, compact blocks and targets
 
@@ -271,6 +273,91 @@ example : decodeSet 2 100 4 [0x32, 0x25] = .error .padding := by decide
 example : walk [3, 6] [1, 6, 6, 11] = .hit := by decide
 
 end Gcs
+
+/-! ## T6 — compact blocks (BIP152), for any short-id function -/
+
+section Cmpct
+open Btc.CompactBlocks
+
+/-- T6 (collision handling characterised): `reconstruct` keeps every prefilled position; the position of a
+    short id shows a pool transaction iff the pool holds that short id under exactly ONE wtxid (any number
+    of copies, anywhere in the pool); none, or two distinct wtxids, leave it missing (to be requested). -/
+theorem reconstruct_characterised (pre sids : List Nat) (pool : List (Nat × Nat)) (slots : List Slot)
+    (h : reconstruct pre sids pool = .ok slots) :
+    slots.length = sids.length + pre.length ∧
+    (∀ j, j < sids.length + pre.length → j ∈ pre → slots[j]? = some .prefilled) ∧
+    (∀ s p, (s, p) ∈ sids.zip (freePos pre (sids.length + pre.length)) → slots[p]? = some (slotOf (ws s pool))) :=
+  reconstruct_slots pre sids pool slots h
+
+/-- T6 (`fill ∘ reconstruct`): for any pool order / superset / duplicates in which no pool transaction
+    shares a needed short id with a different needed transaction: every needed transaction the pool holds
+    is placed, those it lacks are left missing, and filling the missing ones returns exactly the block.
+    `sid` is any function of the wtxid (BIP152: `siphash(k0, k1, ·) & 2^48-1`); `hcount` is `tx_count`. -/
+theorem reconstruct_then_fill (sid : Nat → Nat) (blk pre pool : List Nat) (slots : List Slot)
+    (hcount : (freePos pre blk.length).length + pre.length = blk.length)
+    (hcoll : ∀ w ∈ pool, ∀ j ∈ freePos pre blk.length, ∀ b, blk[j]? = some b → sid w = sid b → w = b)
+    (h : reconstruct pre ((freePos pre blk.length).map fun j => sid (blk.getD j 0))
+          (pool.map fun w => (sid w, w)) = .ok slots) :
+    fill slots blk = blk ∧
+    (∀ j ∈ freePos pre blk.length, ∀ b, blk[j]? = some b → b ∈ pool → slots[j]? = some (Slot.pool b)) ∧
+    (∀ j ∈ freePos pre blk.length, ∀ b, blk[j]? = some b → b ∉ pool → slots[j]? = some Slot.missing) :=
+  reconstruct_fill sid blk pre pool slots hcount hcoll h
+
+example : reconstruct [0] [7, 9] [(9, 100), (5, 3), (7, 200), (9, 100), (7, 201)] =
+    .ok [.prefilled, .missing, .pool 100] := by decide
+
+end Cmpct
+
+/-! ## block-level commitments and chain work -/
+
+section Blk
+open Btc.Block Btc.Merkle
+variable {α : Type} [DecidableEq α]
+
+/-- `Block.assert_valid_merkle_root` passes iff the header root IS the merkle root of the txids and the
+    tree is not the CVE-2012-2459 mutation of a shorter list. -/
+theorem block_merkle_root_valid_iff (h : α → α → α) (hr : α) (txids : List α) :
+    assertMerkleRoot h hr txids = .ok () ↔ rootAndMutated h txids = some (hr, false) :=
+  assertMerkleRoot_ok_iff h hr txids
+
+/-- …so the header root commits to the transaction list: two lists of the same length valid under one
+    header root are equal, or a collision of the node hash is exhibited. -/
+theorem block_root_commits_to_transactions (h : α → α → α) (hr : α) (txids txids' : List α)
+    (hlen : txids.length = txids'.length)
+    (h1 : assertMerkleRoot h hr txids = .ok ()) (h2 : assertMerkleRoot h hr txids' = .ok ()) :
+    txids = txids' ∨ ∃ a b c d, (a, b) ≠ (c, d) ∧ h a b = h c d :=
+  root_commits h hr txids txids' hlen h1 h2
+
+/-- …and every transaction of a valid block has a merkle proof the verifier accepts against the header. -/
+theorem valid_block_proves_every_tx (h : α → α → α) (hr : α) (txids : List α) (i : Nat) (x : α)
+    (hv : assertMerkleRoot h hr txids = .ok ()) (hx : txids[i]? = some x) :
+    rootFromBranch h x (branch h txids i) i = .ok hr :=
+  valid_root_proves_every_tx h hr txids i x hv hx
+
+/-- `Block.assert_valid_witness_commitment` passes on a segwit block iff the LAST commitment output of
+    the coinbase equals `H(witness_root ‖ nonce)`, `nonce` the single 32-byte coinbase witness item and
+    `witness_root` the tree over (32 zero bytes, wtxid₁, …); a block without witnesses needs none. -/
+theorem witness_commitment_valid_iff (H : Bytes → Bytes) (outs witness wtxids : List Bytes) :
+    assertWitnessCommitment H true outs witness wtxids = .ok () ↔
+      ∃ c nonce r m, witnessCommitment outs = some c ∧ witness = [nonce] ∧ nonce.length = 32 ∧
+        rootAndMutated (fun a b => H (a ++ b)) (zero32 :: wtxids) = some (r, m) ∧ H (r ++ nonce) = c :=
+  assertWitnessCommitment_ok_iff H outs witness wtxids
+
+/-- T8 (`chain_work`, over the translated `block_work`): the sum of Core's `GetBlockProof`s when every
+    header is one Core credits with work; the library's ValueError as soon as one is not. -/
+theorem chain_work_eq_core (bs : List Bytes) :
+    chainWork bs =
+      if ∀ b ∈ bs, b.length = 4 ∧ CorePow.getBlockProof (ofBE b) ≠ 0
+      then .ok (((bs.map fun b => CorePow.getBlockProof (ofBE b)).sum : Nat) : Int)
+      else .error .value :=
+  chainWork_eq bs
+
+example : assertMerkleRoot (fun a b : Nat => 10 * a + b) 153 [1, 2, 3] = .ok () := by
+  simp [assertMerkleRoot, rootAndMutated, rootLoop, nextLevel, levelMutated]
+example : assertMerkleRoot (fun a b : Nat => 10 * a + b) 153 [1, 2, 3, 3] = .error .duplicate := by
+  simp [assertMerkleRoot, rootAndMutated, rootLoop, nextLevel, levelMutated]
+
+end Blk
 
 -- non-vacuity: mainnet genesis bits, a sign-bit case, an overflow, a wrap-free retarget
 example : Gen.Pow.target_from_bits [0x1d, 0x00, 0xff, 0xff] =
